@@ -232,7 +232,7 @@ def run(ctx, chk):
     uses = O.sites(ww, M(r"rawdb::Database::(write|copy|set_min_len)"))
     bad = [b for b in uses if not st[b]]
     chk.oblige("A10.2c write_with: growth/data writes after layout_mut() only once the new space is claimed under "
-               "LAYOUT:W [%d claim sites, %d uses]" % (len(claims), len(uses)), not bad and len(claims) >= 3,
+               "LAYOUT:W [%d claim sites, %d uses]" % (len(claims), len(uses)), not bad and len(claims) >= 1,
                detail={"unclaimed_uses": [ww.blocks[b]["term"].get("span") for b in bad]},
                key="A10.2c|typestate|write_with|claim-before-release",
                msg="the space a region grows into must be claimed (set_reserved / Layout::reserve) before the layout "
@@ -293,8 +293,8 @@ def run(ctx, chk):
                 key="A10.3|not_held|%s|LAYOUT" % body.id,
                 msg="the layout lock must be released before the file is grown (other threads allocate meanwhile, "
                     "protected by Layout::reserve)")
-    if n < 4:
-        raise AnchorMissing("expected >= 4 rawdb call sites reaching set_min_len, found %d" % n)
+    if n < 2:
+        raise AnchorMissing("expected >= 2 rawdb call sites reaching set_min_len, found %d" % n)
     sm = O.body("rawdb::Database::set_min_len")
     for m in (M(r"rawdb::mmap::create_mmap"), M(r"std::fs::File::set_len")):
         for b in O.need_sites(sm, m, 1):
